@@ -170,6 +170,53 @@ def instantiate_rule(rule):
     return m
 
 
+def geminal_instance(rule, shift=40):
+    """two copies of a rule's pattern sharing the rule's first any-atom (the overlap of Any-atoms the engine explicitly accepts), e.g. a
+    geminal dinitro compound; the shared atom gets a number that is not a pattern index"""
+    from chython import MoleculeContainer
+    from chython.periodictable import Element
+    from chython.periodictable.base.query import AnyMetal, AnyElement, ListElement
+    q, any_atoms = rule[0], rule[3]
+    if not any_atoms:
+        return None
+    shared = any_atoms[0]
+    m = MoleculeContainer()
+
+    def number(copy, n):
+        return shift if n == shared else n + copy * 100 + 50
+    for copy in (0, 1):
+        for n, a in q._atoms.items():
+            if n == shared and copy:
+                continue
+            if type(a) is AnyMetal:
+                z, chg, rad = 22, 0, False
+            elif type(a) is AnyElement:
+                z, chg, rad = 6, a.charge, a.is_radical
+            elif type(a) is ListElement:
+                z, chg, rad = a.atomic_numbers[0], a.charge, a.is_radical
+            else:
+                z, chg, rad = a.atomic_number, a.charge, a.is_radical
+            m.add_atom(Element.from_atomic_number(z)(charge=chg, is_radical=rad), number(copy, n))
+        for n, k, bd in q.bonds():
+            m.add_bond(number(copy, n), number(copy, k), bd.order[0])
+    nxt = 400
+    for copy in (0, 1):
+        for n, a in q._atoms.items():
+            if n == shared:
+                continue
+            want = [d for d in a.neighbors if d >= len(q._bonds[n])]
+            if want:
+                for _ in range(min(want) - len(q._bonds[n])):
+                    m.add_atom(Element.from_atomic_number(6)(), nxt)
+                    m.add_bond(number(copy, n), nxt, 1)
+                    nxt += 1
+    return m
+
+
+GEMINAL = ['CC(N(=O)=O)N(=O)=O', 'C(N(=O)=O)(N(=O)=O)N(=O)=O', 'CC(C)(N(=O)=O)N(=O)=O', 'O=N(=O)CN(=O)=O', 'CCC(N(=O)=O)(N(=O)=O)CC', 'O=N(=O)C(C)C(C)N(=O)=O',
+           'CC(N(=O)=O)(N(=O)=O)N(=O)=O', 'CN(N(=O)=O)N(=O)=O', 'CC(S(=O)(=O)[S-])S(=O)(=O)[S-]', 'CC([N+](=O)[O-])N(=O)=O', 'O=N(=O)c1ccccc1N(=O)=O',
+           'C(S(N)(=N)=O)S(N)(=N)=O', 'CC(N(=O)=N)N(=O)=N', 'C[Ti](C#N)(C#N)C#N', '[Ti](C#N)(C#N)(N(=O)=O)N(=O)=O']
+
 DECORATIONS = ['[N+](=O)[O-]', 'N(=O)=O', 'S(=O)(=O)O', 'P(=O)(O)O', 'N=[N+]=[N-]', 'N=N#N', '[N+]#N', 'C#N', '[N+]#[C-]', 'N#C',
                'S(C)(=O)=O', '[S+](C)[O-]', 'C(=O)[O-]', 'C(O)=C', 'C(=N)O', 'N=O', '[NH3+]', 'C(=O)O', 'B(O)O', '[N+](C)(C)[O-]',
                'N(C)(C)=O', 'P(C)(C)(C)=C', 'C(N)=[NH2+]', 'OS(=O)(=O)[O-]', '[P+](C)(C)(C)[O-]', 'S(=O)(=O)[S-]', 'Cl(=O)(=O)=O',
